@@ -6,6 +6,7 @@ package c16
 import (
 	"bytes"
 	"fmt"
+	"math/big"
 	"testing"
 	"time"
 
@@ -21,9 +22,12 @@ import (
 	"verif/internal/model"
 )
 
-const rule = "cases (a): LeaseSet2 values (model-encoded, parsed; every identity type, 1..16 keys, 1..16 leases, options, offline blocks), recipient X25519 key pairs and cookies derived from seeds; per case every single byte position of the ciphertext (ephemeral key, nonce, body, tag) x {xor 0x01, xor 0x80, xor a drawn non-zero value}, truncation by 1 and extension by 1, and a private key whose public key differs. cases (b): (destination with an Ed25519 or RedDSA key that is a real curve point, secret of 32..64 bytes, instant) with instants drawn around UTC midnights +-1 s / +-1 ns between 1970 and 2200 and expressed in locations UTC-14h..+14h. Oracles: decrypt(encrypt(x)).Bytes() = x.Bytes(); any modified byte, changed length or different key => error and nil value; CreateBlindedDestination equal for two instants iff same UTC calendar day (own civil-date computation), independent of location; output keeps encryption key, padding and certificate and differs in the signing key; VerifyBlindedSignature true with the factor derived for that secret and day, false for another day, secret or factor. Non-trivial: every case (each carries hundreds of modified ciphertexts); distinct by (plaintext, keys) / (destination, secret, instant)."
+const rule = "cases (a): LeaseSet2 values (model-encoded, parsed; every identity type, 1..16 keys, 1..16 leases, options, offline blocks), recipient X25519 key pairs and cookies derived from seeds; per case every single byte position of the ciphertext (ephemeral key, nonce, body, tag) x {xor 0x01, xor 0x80, xor a drawn non-zero value}, truncation by 1 and extension by 1, and a private key whose public key differs. cases (b): (destination with an Ed25519 or RedDSA key that is a real curve point, secret of 32..64 bytes, instant) with instants drawn around UTC midnights +-1 s / +-1 ns between 1970 and 2200 and expressed in locations UTC-14h..+14h. Oracles: decrypt(encrypt(x)).Bytes() = x.Bytes(); any modified byte, changed length or different key => error and nil value; CreateBlindedDestination equal for two instants iff same UTC calendar day (own civil-date computation), independent of location; output keeps encryption key, padding and certificate and differs in the signing key; VerifyBlindedSignature true with the factor derived for that secret and day, false for another day, another secret, and other factors (derived + k*L for every k that fits 32 bytes, single-bit differences at 39 positions per case, zero, L). Non-trivial: every case (each carries hundreds of modified ciphertexts); distinct by (plaintext, keys) / (destination, secret, instant)."
 
 func TestMain(m *testing.M) { ev.Main(m, "C16", rule) }
+
+// order of the Ed25519 base-point group: 2^252 + 27742317777372353535851937790883648493
+var groupOrder, _ = new(big.Int).SetString("7237005577332262213973186563042994240857116359379907606001950938285454250989", 10)
 
 // ---------------------------------------------------------------------------
 // (a) encryption
@@ -268,6 +272,49 @@ func checkBlind(c BlindCase, r *ev.Rec) error {
 	other[0] ^= 1
 	if encrypted_leaseset.VerifyBlindedSignature(b1, dest, other) {
 		return fmt.Errorf("VerifyBlindedSignature accepts a different blinding factor")
+	}
+	// other encodings that a lenient check might equate with the derived factor:
+	// alpha + k*L (the same residue modulo the group order, a different 32-byte
+	// factor), single-bit differences at every bit position, zero, and L
+	le := func(x *big.Int) (out [32]byte, ok bool) {
+		b := x.Bytes()
+		if len(b) > 32 {
+			return out, false
+		}
+		for i, v := range b {
+			out[len(b)-1-i] = v
+		}
+		return out, true
+	}
+	rev := make([]byte, 32)
+	for i := range rev {
+		rev[i] = alpha[31-i]
+	}
+	a := new(big.Int).SetBytes(rev)
+	for k := int64(1); k <= 16; k++ {
+		f, ok := le(new(big.Int).Add(a, new(big.Int).Mul(groupOrder, big.NewInt(k))))
+		if !ok {
+			break
+		}
+		if encrypted_leaseset.VerifyBlindedSignature(b1, dest, f) {
+			return fmt.Errorf("VerifyBlindedSignature accepts a factor other than the derived one: derived + %d*L (the same residue modulo the group order, different bytes)", k)
+		}
+		r.Class("blind:factor-plus-multiple-of-L")
+	}
+	for bit := 0; bit < 256; bit++ {
+		if (bit+int(c.Secret))%8 != 0 && bit < 248 {
+			continue // 31 sampled positions per case plus the top byte
+		}
+		f := alpha
+		f[bit/8] ^= 1 << uint(bit%8)
+		if encrypted_leaseset.VerifyBlindedSignature(b1, dest, f) {
+			return fmt.Errorf("VerifyBlindedSignature accepts the derived factor with bit %d flipped", bit)
+		}
+	}
+	var zero [32]byte
+	lf, _ := le(groupOrder)
+	if encrypted_leaseset.VerifyBlindedSignature(b1, dest, zero) || encrypted_leaseset.VerifyBlindedSignature(b1, dest, lf) {
+		return fmt.Errorf("VerifyBlindedSignature accepts the zero factor (or L)")
 	}
 	if day1 != day2 {
 		alpha2, _ := kdf.DeriveBlindingFactor(secret, day2)
